@@ -566,7 +566,9 @@ about contents become theorems here, each resting on the C09 theorem named:
 
 What remains assumed about files: a complete file is the `List Leaf` written (`Trie.build es` is
 "insert all, write, open" in C09's model) — the byte-level round trip of that is C11
-(`read_write` / `lookup_correct`), bridged in `Proofs/DictLinkTrie.lean` when present. -/
+(`read_write` / `lookup_correct`); it is NOT yet bridged to C09's `Trie.build` (needs `refFind = leafOf`
+and a permutation argument: C09's `leafCmp` still has the comparator from before the repair, so the
+two models order a leaf that mixes single characters and longer phrases differently). -/
 
 namespace Chewing.C10
 open Chewing.Persist Chewing.DictLink
